@@ -9,7 +9,7 @@
 //!   contexts: core `validate_context` (reference), public `Context::validate`, public `Context::from_json_value(.., Some((schema, action)))`.
 //! Observable per datum: `ok | (violation <class>)`; compared with the model (request line `(conf <schema> entity|request|context <datum>)`).
 //! Implementation-only checks (`propfail`): conformant datum rejected, mutated datum accepted, entry points disagreeing.
-use crate::gen_schema::{self as gs, DEntity, DRequest, Fault, SchemaWorld, Site};
+use crate::gen_schema::{self as gs, DEntity, DRequest, DVal, Fault, Site};
 use crate::out::Out;
 use crate::rng::Rng;
 use crate::sx;
@@ -77,9 +77,9 @@ fn entities_json(es: &[DEntity]) -> J {
 
 /// all collection entry points on `base` with `target` (None: the whole store `base` as is).
 /// returns (name, accepted?) per entry point
-fn store_entry_points(w: &SchemaWorld, p: &Pub, base: &[DEntity], replaced: Option<usize>, target: Option<&DEntity>) -> Vec<(&'static str, Option<bool>)> {
+fn store_entry_points(schema: &ValidatorSchema, p: &Pub, base: &[DEntity], replaced: Option<usize>, target: Option<&DEntity>) -> Vec<(&'static str, Option<bool>)> {
     let ext = Extensions::all_available();
-    let core = CoreSchema::new(&w.schema);
+    let core = CoreSchema::new(schema);
     // full collection with the target in place
     let mut full: Vec<DEntity> = base.to_vec();
     match (replaced, target) {
@@ -131,8 +131,8 @@ fn store_entry_points(w: &SchemaWorld, p: &Pub, base: &[DEntity], replaced: Opti
 }
 
 /// reference verdict for one entity: the conformance checker itself
-fn ref_entity(w: &SchemaWorld, e: &DEntity) -> Result<String, String> {
-    let core = CoreSchema::new(&w.schema);
+fn ref_entity(schema: &ValidatorSchema, e: &DEntity) -> Result<String, String> {
+    let core = CoreSchema::new(schema);
     let ent = e.to_entity()?;
     let r = catch_unwind(AssertUnwindSafe(|| {
         let ch = EntitySchemaConformanceChecker::new(&core, Extensions::all_available());
@@ -165,17 +165,17 @@ fn check_entry_points(out: &mut Out, case: &str, what_datum: &str, expect_accept
     }
 }
 
-fn request_entry_points(w: &SchemaWorld, p: &Pub, q: &DRequest) -> (String, Vec<(&'static str, Option<bool>)>) {
+fn request_entry_points(schema: &ValidatorSchema, p: &Pub, q: &DRequest) -> (String, Vec<(&'static str, Option<bool>)>) {
     let ext = Extensions::all_available();
-    let core = CoreSchema::new(&w.schema);
+    let core = CoreSchema::new(schema);
     let (pu, au, ru) = (gs::mk_uid(&q.principal), gs::mk_uid(&q.action), gs::mk_uid(&q.resource));
     let mk = |s: Option<&ValidatorSchema>| ast::Request::new((pu.clone(), None), (au.clone(), None), (ru.clone(), None), q.to_context(), s, ext);
-    let reference = match catch_unwind(AssertUnwindSafe(|| mk(Some(&w.schema)).map(|_| ()).map_err(|e| req_class(&e)))) {
+    let reference = match catch_unwind(AssertUnwindSafe(|| mk(Some(schema)).map(|_| ()).map_err(|e| req_class(&e)))) {
         Ok(v) => verdict(v),
         Err(_) => "(panic)".into(),
     };
     let mut res = Vec::new();
-    res.push(("core::Request::new(ValidatorSchema)", acc(|| mk(Some(&w.schema)))));
+    res.push(("core::Request::new(ValidatorSchema)", acc(|| mk(Some(schema)))));
     res.push(("core::Request::new(CoreSchema)", acc(|| ast::Request::new((pu.clone(), None), (au.clone(), None), (ru.clone(), None), q.to_context(), Some(&core), ext))));
     res.push(("pub::Request::new", acc(|| {
         cedar_policy::Request::new(pu.clone().into(), au.clone().into(), ru.clone().into(), cedar_policy::Context::from(q.to_context()), Some(&p.schema))
@@ -183,17 +183,17 @@ fn request_entry_points(w: &SchemaWorld, p: &Pub, q: &DRequest) -> (String, Vec<
     (reference, res)
 }
 
-fn context_entry_points(w: &SchemaWorld, p: &Pub, q: &DRequest) -> (String, Vec<(&'static str, Option<bool>)>) {
+fn context_entry_points(schema: &ValidatorSchema, p: &Pub, q: &DRequest) -> (String, Vec<(&'static str, Option<bool>)>) {
     let ext = Extensions::all_available();
     let au = gs::mk_uid(&q.action);
     let ctx = q.to_context();
-    let reference = match catch_unwind(AssertUnwindSafe(|| w.schema.validate_context(&ctx, &au, ext).map_err(|e| req_class(&e)))) {
+    let reference = match catch_unwind(AssertUnwindSafe(|| schema.validate_context(&ctx, &au, ext).map_err(|e| req_class(&e)))) {
         Ok(v) => verdict(v),
         Err(_) => "(panic)".into(),
     };
     let pau: cedar_policy::EntityUid = au.clone().into();
     let mut res = Vec::new();
-    res.push(("core::validate_context", acc(|| w.schema.validate_context(&ctx, &au, ext))));
+    res.push(("core::validate_context", acc(|| schema.validate_context(&ctx, &au, ext))));
     res.push(("pub::Context::validate", acc(|| cedar_policy::Context::from(ctx.clone()).validate(&p.schema, &pau))));
     res.push(("pub::Context::from_json_value", acc(|| cedar_policy::Context::from_json_value(q.context_json(), Some((&p.schema, &pau))))));
     (reference, res)
@@ -219,6 +219,7 @@ fn context_sx(q: &DRequest) -> String {
 pub fn run(args: &Args, out: &mut Out) {
     let mut rng = Rng::new(args.seed);
     let data_per_world = 20;
+    probes(out);
     for case in 0..args.n {
         let mut r = rng.fork();
         let sub = r.0;
@@ -239,11 +240,11 @@ pub fn run(args: &Args, out: &mut Out) {
         out.sample(format!("{cname} schema={}", w.json));
         let store = gs::gen_store(&mut r, &w.spec);
         // --- the conformant store through every collection entry point
-        let res = store_entry_points(&w, &p, &store.entities, None, None);
+        let res = store_entry_points(&w.schema, &p, &store.entities, None, None);
         check_entry_points(out, &cname, "conformant store", true, &res, &entities_json(&store.entities).to_string());
         out.count("conformant_stores");
         let mut emit_entity = |out: &mut Out, e: &DEntity, tag: &str, expect_accept: bool, res: &[(&'static str, Option<bool>)]| {
-            match ref_entity(&w, e) {
+            match ref_entity(&w.schema, e) {
                 Ok(v) => {
                     let meta = format!("{cname} entity {tag} json={}", e.to_json());
                     if (v == "ok") != expect_accept {
@@ -292,9 +293,24 @@ pub fn run(args: &Args, out: &mut Out) {
                 out.count(&format!("entity:{tag}:not-constructible"));
                 continue;
             }
-            let res = store_entry_points(&w, &p, &store.entities, idx, Some(&m));
+            let res = store_entry_points(&w.schema, &p, &store.entities, idx, Some(&m));
             check_entry_points(out, &cname, &format!("mutated entity [{tag}]"), false, &res, &m.to_json().to_string());
             emit_entity(out, &m, &tag, false, &res);
+        }
+        // --- an action entity given with its direct parents only, next to the (complete) entities of its parents:
+        //     `validate_action` compares ancestor sets, so the verdict depends on whether the entry point closes the
+        //     hierarchy before or after validating
+        if let Some(i) = (0..w.spec.actions.len()).find(|&i| gs::action_entity_direct(&w.spec, i).is_some()) {
+            let mut base: Vec<DEntity> = store.entities.iter().filter(|e| w.spec.action(&e.uid.0, &e.uid.1).is_none()).cloned().collect();
+            for j in 0..w.spec.actions.len() {
+                if j != i {
+                    base.push(gs::action_entity(&w.spec, j));
+                }
+            }
+            let t = gs::action_entity_direct(&w.spec, i).unwrap();
+            let res = store_entry_points(&w.schema, &p, &base, None, Some(&t));
+            check_entry_points(out, &cname, "mutated entity [action-direct-parents@action]", false, &res, &t.to_json().to_string());
+            emit_entity(out, &t, "action-direct-parents@action", false, &res);
         }
         // --- requests
         for k in 0..(data_per_world / 2) {
@@ -320,7 +336,7 @@ pub fn run(args: &Args, out: &mut Out) {
                 }
             };
             let meta = format!("{cname} request {tag} p={:?} a={:?} r={:?} ctx={}", q.principal, q.action, q.resource, q.context_json());
-            let (v, res) = request_entry_points(&w, &p, &q);
+            let (v, res) = request_entry_points(&w.schema, &p, &q);
             check_entry_points(out, &cname, &format!("request [{tag}]"), expect_req, &res, &meta);
             if (v == "ok") != expect_req {
                 out.propfail(if expect_req { "conformant datum rejected" } else { "single-fault mutation accepted" }, &meta, &format!("Request::new says {v}"));
@@ -328,7 +344,7 @@ pub fn run(args: &Args, out: &mut Out) {
             out.nontrivial(&format!("req|{tag}|{v}|{meta}"));
             out.count(&format!("request:{tag}:{v}"));
             out.line(format!("(conf {ssx} request {})", request_sx(&q)), v, meta.clone());
-            let (v, res) = context_entry_points(&w, &p, &q);
+            let (v, res) = context_entry_points(&w.schema, &p, &q);
             check_entry_points(out, &cname, &format!("context of request [{tag}]"), expect_ctx, &res, &meta);
             if (v == "ok") != expect_ctx {
                 out.propfail(if expect_ctx { "conformant datum rejected" } else { "single-fault mutation accepted" }, &meta, &format!("validate_context says {v}"));
@@ -336,5 +352,36 @@ pub fn run(args: &Args, out: &mut Out) {
             out.count(&format!("context:{tag}:{v}"));
             out.line(format!("(conf {ssx} context {})", context_sx(&q)), v, format!("{meta} [context]"));
         }
+    }
+}
+
+/// fixed regression probes (run once per stream): minimal instances of the discrepancies this check found
+fn probes(out: &mut Out) {
+    let text = r#"
+        entity User;
+        entity Color enum ["red"];
+        action view appliesTo { principal: User, resource: User, context: { n: Long, c?: Color } };
+    "#;
+    let (schema, _) = ValidatorSchema::from_cedarschema_str(text, Extensions::all_available()).expect("probe schema");
+    let p = Pub { schema: cedar_policy::Schema::from(schema.clone()) };
+    let ssx = sx_schema::schema(&schema);
+    let u = |t: &str, i: &str| (t.to_string(), i.to_string());
+    let mk = |ctx: Vec<(String, DVal)>| DRequest { principal: u("User", "a"), action: u("Action", "view"), resource: u("User", "b"), context: ctx };
+    let data = vec![
+        ("conformant", true, mk(vec![("c".into(), DVal::Ent("Color".into(), "red".into())), ("n".into(), DVal::Long(1))])),
+        ("wrong-type@ctx", false, mk(vec![("n".into(), DVal::Str("str".into()))])),
+        ("enum-nested@ctx", false, mk(vec![("c".into(), DVal::Ent("Color".into(), "nope".into())), ("n".into(), DVal::Long(1))])),
+        ("missing-required@ctx", false, mk(vec![])),
+    ];
+    for (tag, expect, q) in data {
+        let cname = format!("probe schema={}", text.split_whitespace().collect::<Vec<_>>().join(" "));
+        let meta = format!("{cname} request {tag} ctx={}", q.context_json());
+        let (v, res) = context_entry_points(&schema, &p, &q);
+        check_entry_points(out, &cname, &format!("context of request [{tag}]"), expect, &res, &meta);
+        out.count(&format!("probe:context:{tag}:{v}"));
+        out.line(format!("(conf {ssx} context {})", context_sx(&q)), v, format!("{meta} [context]"));
+        let (v, res) = request_entry_points(&schema, &p, &q);
+        check_entry_points(out, &cname, &format!("request [{tag}]"), expect, &res, &meta);
+        out.line(format!("(conf {ssx} request {})", request_sx(&q)), v, meta);
     }
 }
